@@ -18,7 +18,8 @@ CLAIM = dict(
          'and straddling 0) with interpolation on both sides of every node at dyadic distances 2^-12..2^-18 (exact) and at 1e-6..4e-6 (units); nearly '
          'uniform grids with spacings h(1 + e 2^-K), K = 12..30, in one or both directions, and exactly uniform ones, whose trapezium / square_trapezium '
          'values are recomputed exactly by TLC as split numbers H + L/2^F; file round trips into meshes that hold other data on another grid with equally '
-         'many, fewer and more nodes, checked through every accessor.',
+         'many, fewer and more nodes, checked through every accessor; non-uniform grids (4..12 nodes, 1-D and both directions of 2-D) whose cell widths have '
+         'uniform-looking summary statistics (first = last = mean, first = last, first = mean, palindromic, permuted multiset, two alternating widths, one odd cell).',
     note='Exact (decided by TLC on integers/rationals): all access paths, interpolation at nodes / mid-cells / dyadic points, 1-D and 2-D '
          'trapezium, square_trapezium. Harness measurements judged by guards in Trace_Mesh.tla: interpolation at arbitrary interior points '
          '(>= 1e-6 from every node; double-double reference, guard 4 units of 8 eps max|data|, a-priori bound 2.5 eps max|data|) and the '
@@ -136,7 +137,7 @@ def _count_families(ctx, cases_path, events_path):
     """the special input families must be present: large coordinates, near-node points on both sides, nearly uniform grids, round trips into
     meshes with equally many / fewer / more nodes"""
     cases = {c['cid']: c for c in vlib.read_ndjson(cases_path)}
-    n = dict(near_dyadic=0, near_1e6=0, large_offset_interp=0, fine_trap1=0, fine_trap2=0, fine_sq=0, fine_both=0, rt_same=0, rt_fewer=0, rt_more=0, two_node=0)
+    n = dict(near_dyadic=0, near_1e6=0, large_offset_interp=0, fine_trap1=0, fine_trap2=0, fine_sq=0, fine_both=0, rt_same=0, rt_fewer=0, rt_more=0, two_node=0, stat_trap1=0, stat_trap2=0, stat_sq=0, stat_flm_both=0)
     for e in vlib.read_ndjson(events_path):
         c = cases[e['cid']]
         if e['op'] in ('interp', 'interp_any') and 'near' in e:
@@ -149,6 +150,10 @@ def _count_families(ctx, cases_path, events_path):
                 n['fine_both'] += 1
         if e['op'] == 'roundtrip' and not e['panic']:
             n['rt_same' if e['m0'] == e['nn'] else ('rt_fewer' if e['m0'] < e['nn'] else 'rt_more')] += 1
+        if c.get('family') == 'stat' and e['op'] in ('trap', 'sq_trap'):
+            n['stat_trap1' if e['kind'] == 'm1' else ('stat_sq' if e['op'] == 'sq_trap' else 'stat_trap2')] += 1
+            if e['kind'] == 'm2' and c.get('fam') == 0:         # first = last = mean cell width in x AND y, interior non-uniform
+                n['stat_flm_both'] += 1
         if e['op'] in ('trap', 'interp') and len(c['xn']) == 2:
             n['two_node'] += 1
     if min(n.values()) == 0:
